@@ -64,7 +64,7 @@ def generate_sessions(tier: str) -> fx.TlcResult:
     if tier == 'quick':
         cfg = SESSION_CFG.format(operands=tla_set(SESSION_OPERANDS_Q), atoms=2, ops=2)
     else:
-        cfg = SESSION_CFG.format(operands=tla_set(SESSION_OPERANDS_T), atoms=2, ops=3)
+        cfg = SESSION_CFG.format(operands=tla_set(SESSION_OPERANDS_T), atoms=2, ops=2)     # three derived objects: > 3e6 states
     res = fx.run_tlc('MC_Session', cfg, workers=6)
     if res.violated:
         raise fx.MachineryError(f'MC_Session violates {res.violated}:\n' + res.stdout[-3000:])
